@@ -20,7 +20,7 @@ props.prop(
                 'weak-reference clean-up, double subscription',
     assumptions=['handlers are arbitrary callables (may broadcast, open blocks, subscribe)'])
 props.also('C07',
-           'that the priority parameter is replaced only under an identity test with None and the callback container stores every subscription it is given (or compares all three parts); (the same for `priority or DEFAULT` and conditional expressions)')
+           'that the priority parameter is replaced only under an identity test with None and the callback container stores every subscription it is given (or compares all three parts); (the same for `priority or DEFAULT` and conditional expressions); that the clean-up of dead subscriptions looks at every weak reference the container stores with that callback (handler and filter object)')
 
 HUB = 'glue.core.hub.Hub'
 
